@@ -1,9 +1,12 @@
 (* C07 clause 705, as a trace predicate of its own (Session/Spec.v lists the code but c07_scan has no clause for it):
    a store reset never happens without a cause.  With no reset option configured (ResetOnLogon / ResetOnLogout /
-   ResetOnDisconnect all off) and nothing buffered inbound, an event in which the store is reset is one of
+   ResetOnDisconnect all off), an event in which the store is reset is one of
      - a directly processed Logon carrying ResetSeqNumFlag=Y (a reset the peer asks for, or the echo of ours),
      - the ResetSeqTime crossing (the engine sends a Logon carrying 141=Y),
-     - the application itself sending a Logon carrying 141=Y through SendToTarget. *)
+     - the application itself sending a Logon carrying 141=Y through SendToTarget,
+   or an event that handles buffered frames while a Logon carrying 141=Y may sit in the inbound buffer (`pend`: such a Logon
+   has arrived and the buffer has not been seen empty since).  Buffered frames that are not such a Logon do not excuse a
+   reset, whether they are delivered one by one or handled by handleDisconnectState before it disconnects. *)
 From Coq Require Import String.
 From Coq Require Import ZArith List Bool.
 From QF Require Import Base.Bytes Session.Types Session.Model Session.Spec.
@@ -19,12 +22,16 @@ Definition reset_cause (e : event) : bool :=
   | _ => false
   end.
 
+Definition is_reset_logon (m : minput) : bool :=
+  beq_bytes (mi_type m) T_LOGON && match mi_reset m with FVal true => true | _ => false end.
+Definition arrives_reset (e : event) : bool := match e with EArrive m => is_reset_logon m | _ => false end.
+
 (* code 705: a reset without any cause *)
-Fixpoint c07_cause_scan (c : cfg) (i : nat) (prev : obs) (tr : list (event * obs)) : list failure :=
+Fixpoint c07_cause_scan (c : cfg) (i : nat) (pend : bool) (tr : list (event * obs)) : list failure :=
   match tr with
   | [] => []
   | (e, o) :: r =>
-      (if has_reset (ob_cbs o) && no_reset_option c && (ob_inbuf prev =? 0) && negb (reset_cause e) then [(i, 705)] else [])
-      ++ c07_cause_scan c (S i) o r
+      (if has_reset (ob_cbs o) && no_reset_option c && negb pend && negb (reset_cause e) then [(i, 705)] else [])
+      ++ c07_cause_scan c (S i) (if ob_inbuf o =? 0 then false else pend || arrives_reset e) r
   end.
-Definition c07_cause_check (c : cfg) (tr : list (event * obs)) : list failure := c07_cause_scan c O (init_obs c) tr.
+Definition c07_cause_check (c : cfg) (tr : list (event * obs)) : list failure := c07_cause_scan c O false tr.
